@@ -849,79 +849,171 @@ macro_rules! len_sweep {
     len_sweep!(SignerPrivateKeyShare, b);
 }
 
-// IDENTIFIER 0: every type with an identifier rejects the zero identifier, whatever the rest.
+// IDENTIFIER 0: every type with an identifier rejects the zero identifier even when every other
+// component is valid (a canonical scalar s, the valid point [k]B) -- natively replayable; the
+// same strings with the identifier s != 0 are accepted.
 
 //@harness verif_frost_@S@_ident0 180
 {
-    let mut b: [u8; 2 * NS + 2 * NE] = kani::any();
-    let mut i = 0;
-    while i < NS {
-        b[i] = 0;
-        i += 1;
+    let kb: [u8; 2 * NS] = kani::any();
+    let k = match nz_scalar(&kb[0..NS]) { Some(s) => s, None => return };
+    let s = match nz_scalar(&kb[NS..2 * NS]) { Some(s) => s, None => return };
+    let pe = point_encode(Point::mulgen(&k));
+    let se = scalar_encode(s);
+    let mut b = [0u8; 2 * NS + 2 * NE];
+    // layouts: [id | s | pe]  [id | pe]  [id | s | s]  [id | pe | pe]  [id | s]
+    {
+        b[NS..2 * NS].copy_from_slice(&se);
+        b[2 * NS..2 * NS + NE].copy_from_slice(&pe);
+        assert!(SignerPrivateKeyShare::decode(&b[..2 * NS + NE]).is_none());
+        assert!(SignatureShare::decode(&b[..2 * NS]).is_none());
+        assert!(GroupPrivateKey::decode(&b[..NS]).is_none());
+        b[2 * NS..3 * NS].copy_from_slice(&se);
+        assert!(Nonce::decode(&b[..3 * NS]).is_none());
+        b[0..NS].copy_from_slice(&se);
+        assert!(Nonce::decode(&b[..3 * NS]).is_some());
+        assert!(SignatureShare::decode(&b[..2 * NS]).is_some());
     }
-    assert!(SignerPrivateKeyShare::decode(&b[..2 * NS + NE]).is_none());
-    assert!(SignerPublicKey::decode(&b[..NS + NE]).is_none());
-    assert!(Nonce::decode(&b[..3 * NS]).is_none());
-    assert!(Commitment::decode(&b[..NS + 2 * NE]).is_none());
-    assert!(SignatureShare::decode(&b[..2 * NS]).is_none());
-    assert!(GroupPrivateKey::decode(&b[..NS]).is_none());
-    // the zero scalar itself is a canonical scalar (so the rejection above is the explicit one)
-    assert!(scalar_decode(&b[..NS]).is_some());
+    {
+        let mut b = [0u8; NS + 2 * NE];
+        b[NS..NS + NE].copy_from_slice(&pe);
+        b[NS + NE..NS + 2 * NE].copy_from_slice(&pe);
+        assert!(SignerPublicKey::decode(&b[..NS + NE]).is_none());
+        assert!(Commitment::decode(&b).is_none());
+        b[0..NS].copy_from_slice(&se);
+        assert!(SignerPublicKey::decode(&b[..NS + NE]).is_some());
+        assert!(Commitment::decode(&b).is_some());
+    }
+    // the zero scalar itself is a canonical scalar (so the rejections above are the explicit ones)
+    assert!(scalar_decode(&[0u8; NS]).is_some());
+    kani::cover!(true);
+}
+
+// SUITE GLUE: the five suite-specific functions (scalar_decode, scalar_encode, scalar_encode_le
+// through scalar_cmp_vartime, point_decode, point_encode) against specifications written on the
+// wire bytes -- natively replayable:
+//  * scalar_decode(b) is Some <=> len == NS and the wire integer is < the group order
+//    (Scalar::MODULUS), and then scalar_encode gives b back;
+//  * scalar_cmp_vartime orders two scalars as their wire integers;
+//  * point_decode(point_encode([k]B)) is [k]B; lengths NE-1, NE+1, 0 are rejected by both decoders.
+
+fn wire_canonical(b: &[u8]) -> bool {
+    let m = Scalar::MODULUS;
+    let mut k = NW;
+    while k > 0 {
+        k -= 1;
+        let x = wire_word(b, k);
+        let y = if k < m.len() { m[k] } else { 0 };
+        if x != y {
+            return x < y;
+        }
+    }
+    false
+}
+
+//@harness verif_frost_@S@_glue 180
+{
+    let b: [u8; 2 * NS + 1] = kani::any();
+    let kb: [u8; NS] = kani::any();
+    let (b0, b1) = (&b[0..NS], &b[NS..2 * NS]);
+    let s0 = scalar_decode(b0);
+    let s1 = scalar_decode(b1);
+    assert!(s0.is_some() == wire_canonical(b0));
+    assert!(scalar_decode(&b[..NS - 1]).is_none() && scalar_decode(&b[..NS + 1]).is_none()
+        && scalar_decode(&b[..0]).is_none());
+    if let (Some(x0), Some(x1)) = (s0, s1) {
+        assert!(bytes_eq(&scalar_encode(x0), b0));
+        let c = scalar_cmp_vartime(x0, x1);
+        assert!((c == Ordering::Less) == wire_lt(b0, b1));
+        assert!((c == Ordering::Equal) == wire_eq(b0, b1));
+        assert!((x0.iszero() != 0) == wire_eq(b0, &[0u8; NS]));
+        kani::cover!(c == Ordering::Greater);
+    }
+    kani::cover!(s0.is_none());
+    let k = match nz_scalar(&kb) { Some(s) => s, None => return };
+    let p = Point::mulgen(&k);
+    let pe = point_encode(p);
+    let q = point_decode(&pe);
+    assert!(q.is_some() && peq(q.unwrap(), p));
+    assert!(point_decode(&pe[..NE - 1]).is_none() && point_decode(&pe[..0]).is_none());
+    let mut pl = [0u8; NE + 1];
+    pl[..NE].copy_from_slice(&pe);
+    assert!(point_decode(&pl).is_none());
 }
 
 // ------------------------------------------------------------------ lists
 
 const CL: usize = NS + 2 * NE;
 
-// Commitment::decode_list on 2*CL bytes: Some <=> both elements decode and identifiers are
-// strictly ascending as integers (oracle: wire_lt on the wire bytes); elements are the element
-// decodings.  Lists of 0 and 1 element are rejected.  (encode_list(decode_list(b)) == b is in
-// clist3; it is applied to a fixed-size copy of the elements: iterating the decoded Vec itself
-// makes CBMC unwind the slice iterator up to the bound, its length being a merged value.)
+// Commitment::decode_list on lists of 2 and 3 encoded commitments whose identifiers are ARBITRARY
+// NS-byte strings and whose points are valid ([k]B; point validity inside a list is
+// Commitment::decode's business, decided by spec_commitment) -- natively replayable:
+// Some <=> every identifier is a canonical non-zero scalar and identifiers are strictly
+// ascending as integers (oracle: wire_lt on the wire bytes); elements are the element decodings.
+// Lists of 0 and 1 element are rejected.
+
+fn put_comm(dst: &mut [u8], id: &[u8], pe0: &[u8; NE], pe1: &[u8; NE]) {
+    dst[0..NS].copy_from_slice(id);
+    dst[NS..NS + NE].copy_from_slice(pe0);
+    dst[NS + NE..NS + 2 * NE].copy_from_slice(pe1);
+}
 
 //@harness verif_frost_@S@_clist2 180
 {
-    let b: [u8; 2 * CL] = kani::any();
+    let ib: [u8; 2 * NS] = kani::any();
+    let kb: [u8; 2 * NS] = kani::any();
+    let k0 = match nz_scalar(&kb[0..NS]) { Some(s) => s, None => return };
+    let k1 = match nz_scalar(&kb[NS..2 * NS]) { Some(s) => s, None => return };
+    let (p0, p1) = (Point::mulgen(&k0), Point::mulgen(&k1));
+    let (pe0, pe1) = (point_encode(p0), point_encode(p1));
+    let (id0, id1) = (&ib[0..NS], &ib[NS..2 * NS]);
+    let mut b = [0u8; 2 * CL];
+    put_comm(&mut b[0..CL], id0, &pe0, &pe1);
+    put_comm(&mut b[CL..2 * CL], id1, &pe1, &pe0);
     assert!(Commitment::decode_list(&b[..0]).is_none());
     assert!(Commitment::decode_list(&b[..CL]).is_none());
-    let c0 = Commitment::decode(&b[0..CL]);
-    let c1 = Commitment::decode(&b[CL..2 * CL]);
-    let lt01 = wire_lt(&b[0..NS], &b[CL..CL + NS]);
+    let (i0, i1) = (nz_scalar(id0), nz_scalar(id1));
     let r = Commitment::decode_list(&b);
-    let exp = c0.is_some() && c1.is_some() && lt01;
+    let exp = i0.is_some() && i1.is_some() && wire_lt(id0, id1);
     assert!(r.is_some() == exp);
     if let Some(ref v) = r {
         assert!(v.len() == 2);
-        let (c0, c1) = (c0.unwrap(), c1.unwrap());
-        assert!(seq(v[0].ident, c0.ident) && peq(v[0].hiding, c0.hiding) && peq(v[0].binding, c0.binding));
-        assert!(seq(v[1].ident, c1.ident) && peq(v[1].hiding, c1.hiding) && peq(v[1].binding, c1.binding));
+        assert!(seq(v[0].ident, i0.unwrap()) && peq(v[0].hiding, p0) && peq(v[0].binding, p1));
+        assert!(seq(v[1].ident, i1.unwrap()) && peq(v[1].hiding, p1) && peq(v[1].binding, p0));
     }
     kani::cover!(r.is_some());
-    kani::cover!(r.is_none() && c0.is_some() && c1.is_some());
+    kani::cover!(r.is_none() && i0.is_some() && i1.is_some());
 }
 
-// three elements: ordering is checked between every adjacent pair
+// three elements: ordering is checked between every adjacent pair; encode_list(decode_list(b)) == b
+// (applied to a fixed-size copy of the elements: iterating the decoded Vec itself makes CBMC
+// unwind the slice iterator up to the bound, its length being a merged value)
 
 //@harness verif_frost_@S@_clist3 520
 {
-    let b: [u8; 3 * CL] = kani::any();
-    let c0 = Commitment::decode(&b[0..CL]);
-    let c1 = Commitment::decode(&b[CL..2 * CL]);
-    let c2 = Commitment::decode(&b[2 * CL..3 * CL]);
-    let lt01 = wire_lt(&b[0..NS], &b[CL..CL + NS]);
-    let lt12 = wire_lt(&b[CL..CL + NS], &b[2 * CL..2 * CL + NS]);
+    let ib: [u8; 3 * NS] = kani::any();
+    let kb: [u8; NS] = kani::any();
+    let k0 = match nz_scalar(&kb) { Some(s) => s, None => return };
+    let p0 = Point::mulgen(&k0);
+    let pe0 = point_encode(p0);
+    let (id0, id1, id2) = (&ib[0..NS], &ib[NS..2 * NS], &ib[2 * NS..3 * NS]);
+    let mut b = [0u8; 3 * CL];
+    put_comm(&mut b[0..CL], id0, &pe0, &pe0);
+    put_comm(&mut b[CL..2 * CL], id1, &pe0, &pe0);
+    put_comm(&mut b[2 * CL..3 * CL], id2, &pe0, &pe0);
+    let (i0, i1, i2) = (nz_scalar(id0), nz_scalar(id1), nz_scalar(id2));
     let r = Commitment::decode_list(&b);
-    let exp = c0.is_some() && c1.is_some() && c2.is_some() && lt01 && lt12;
+    let exp = i0.is_some() && i1.is_some() && i2.is_some() && wire_lt(id0, id1) && wire_lt(id1, id2);
     assert!(r.is_some() == exp);
     if let Some(ref v) = r {
         assert!(v.len() == 3);
-        let c2 = c2.unwrap();
-        assert!(seq(v[2].ident, c2.ident) && peq(v[2].hiding, c2.hiding) && peq(v[2].binding, c2.binding));
+        assert!(seq(v[0].ident, i0.unwrap()) && seq(v[1].ident, i1.unwrap()) && seq(v[2].ident, i2.unwrap()));
+        assert!(peq(v[2].hiding, p0) && peq(v[2].binding, p0));
         let e = Commitment::encode_list(&[v[0], v[1], v[2]]);
         assert!(e.len() == 3 * CL && bytes_eq(&e, &b));
     }
     kani::cover!(r.is_some());
-    kani::cover!(r.is_none() && c0.is_some() && c1.is_some() && c2.is_some() && lt01);
+    kani::cover!(r.is_none() && i0.is_some() && i1.is_some() && i2.is_some() && wire_lt(id0, id1));
 }
 
 // every length in 0..=2*CL+1 that is not a multiple of the element length is rejected, for
@@ -1171,7 +1263,8 @@ fn mk_gpk(p: Point) -> GroupPublicKey {
 }
 
 // sign: arbitrary share, nonce (with its own commitment, the documented precondition),
-// arbitrary list of 0..2 commitments whose points are or are not the signer's.
+// arbitrary identifiers in a list of 0..2 commitments (first entry with the signer's points, second
+// entry with a different hiding point).
 
 //@harness verif_frost_@S@_sign_total 180
 {
@@ -1179,7 +1272,6 @@ fn mk_gpk(p: Point) -> GroupPublicKey {
     let ib: [u8; 3 * NS] = kani::any();
     let nb: [u8; 3 * NS] = kani::any();
     let msg: [u8; 3] = kani::any();
-    let sel: u8 = kani::any();
     let k = match nz_scalar(&kb[0..NS]) { Some(s) => s, None => return };
     let sk = match nz_scalar(&kb[NS..2 * NS]) { Some(s) => s, None => return };
     let i0 = match nz_scalar(&ib[0..NS]) { Some(s) => s, None => return };
@@ -1188,12 +1280,10 @@ fn mk_gpk(p: Point) -> GroupPublicKey {
     let nonce = match Nonce::decode(&nb) { Some(n) => n, None => return };
     let comm = nonce.get_commitment();
     let p = Point::mulgen(&k);
-    // list entries carry either the signer's commitment points or the other point
-    let (h0, b0) = if (sel & 1) != 0 { (comm.hiding, comm.binding) } else { (p, p) };
-    let (h1, b1) = if (sel & 2) != 0 { (comm.hiding, comm.binding) } else { (p, comm.binding) };
+    // first entry carries the signer's commitment points, the second one a different hiding point
     let list = [
-        Commitment { ident: i0, hiding: h0, binding: b0 },
-        Commitment { ident: i1, hiding: h1, binding: b1 },
+        Commitment { ident: i0, hiding: comm.hiding, binding: comm.binding },
+        Commitment { ident: i1, hiding: p, binding: comm.binding },
     ];
     let share = SignerPrivateKeyShare { ident: sid, sk: sk, pk: p, group_pk: mk_gpk(p) };
     let r = share.sign(nonce, comm, &msg, &list);
